@@ -55,6 +55,10 @@ def topup_violations(text, rec):
         own[cname(a)].add((pos, a.aname))
         types[pos][a.resn.strip()].add((cname(a), a.aname))
     v = []
+    want_names = sorted(own)
+    if sorted(rec["conf_names"]) != want_names:
+        v.append({"clause": "conformation-names", "detail": "conformations %r, expected %r from MODEL numbers and "
+                  "alternate-location tags (blank -> A, digit n -> n-th letter)" % (rec["conf_names"], want_names)})
     for c in rec["conf_names"]:
         obs = collections.defaultdict(set)
         obs_types = collections.defaultdict(set)
